@@ -316,7 +316,7 @@ def equality_tables(rep, tier):
     at.fact_le(Lin.var("pt2"), M)
     m0 = Lin.var("m0")
     at.fact_lt(m0, m)
-    changes = ["same", "name", "label", "count", "timestamp", "span", "type-empty", "type", "tg-max", "tg-min", "tg-extra-tier", "tg-tier-order"]
+    changes = ["same", "name", "label", "count", "timestamp", "span", "type-empty", "type", "tg-max", "tg-min", "tg-extra-tier"]
 
     def code(I, mode):
         def mk(kind, name, e, lo, hi):
@@ -347,12 +347,12 @@ def equality_tables(rep, tier):
         tgA = I.instantiate(idx.cls("Textgrid"), [m, M], {})
         tgB = I.instantiate(idx.cls("Textgrid"), [m0 if mode == "tg-min" else m, M2 if mode == "tg-max" else M], {})
         I.call_value(I.getattr(tgA, "addTier"), [A, None, "silence"], {})
-        if mode == "tg-tier-order":
-            I.call_value(I.getattr(tgA, "addTier"), [mk("point", "P", pts, m, M), None, "silence"], {})
-            I.call_value(I.getattr(tgB, "addTier"), [mk("point", "P", pts, m, M), None, "silence"], {})
         I.call_value(I.getattr(tgB, "addTier"), [B, None, "silence"], {})
+        # an identical second tier after the perturbed one: a difference must not be forgotten by the tiers that follow
+        I.call_value(I.getattr(tgA, "addTier"), [mk("point", "P", pts, m, M), None, "silence"], {})
+        I.call_value(I.getattr(tgB, "addTier"), [mk("point", "P", pts, m, M), None, "silence"], {})
         if mode == "tg-extra-tier":
-            I.call_value(I.getattr(tgB, "addTier"), [mk("point", "P", pts, m, M), None, "silence"], {})
+            I.call_value(I.getattr(tgB, "addTier"), [mk("point", "Q", pts, m, M), None, "silence"], {})
         teq = idx.get("Textgrid.__eq__")
         tab = I.truth(I.call_function(teq, [tgA, tgB], {}))
         tba = I.truth(I.call_function(teq, [tgB, tgA], {}))
@@ -370,7 +370,7 @@ def equality_tables(rep, tier):
             return "textgrids holding the tiers compare %s, expected %s" % (got["tab"], exp_tg)
         return None
     simple_table(rep, "Q-equality", "TextgridTier.__eq__", at, changes, code, lambda O, mode: (mode == "same" or mode.startswith("tg-"), mode == "same"),
-                 "a 2-interval tier against itself and against one-field perturbations (name, label, count, timestamp, span, type); textgrids also against a different span, an extra tier, another tier order", eq)
+                 "a 2-interval tier against itself and against one-field perturbations (name, label, count, timestamp, span, type); textgrids (the tier followed by an identical second tier) also against a different span and an extra tier", eq)
     rep.functions.add(idx.get("Textgrid.__eq__").qual)
 
     # entry-level equality (constants.Interval / constants.Point), interpreted from the repository's own __eq__ / __ne__
